@@ -80,7 +80,14 @@ Overlay(dc, x) ==
 
 (* L2 traces: the harness restates, for every Cycle line, what the manifests    *)
 (* declare (decl_apps) and the partition / priority in force (declared, oprio)  *)
-OverlayL2(line, x) ==
+FrozenL2(line, x) ==
+  IF "obs_frozen" \notin DOMAIN line THEN x
+  ELSE [x EXCEPT !.servers = [s \in DOMAIN x.servers |->
+          IF s \in SetOf(line.obs_frozen)
+          THEN [x.servers[s] EXCEPT !.state = "frozen"] ELSE x.servers[s]]]
+
+OverlayL2(line, x0) ==
+  LET x == FrozenL2(line, x0) IN
   IF "decl_apps" \notin DOMAIN line THEN x
   ELSE [x EXCEPT !.apps = [a \in DOMAIN x.apps |->
           IF a \notin DOMAIN line.decl_apps THEN x.apps[a]
@@ -88,6 +95,8 @@ OverlayL2(line, x) ==
                [x.apps[a] EXCEPT !.retention = d.retention, !.lease = d.lease, !.once = d.once,
                                  !.group = d.group, !.aff = d.aff, !.limits = d.limits,
                                  !.blacklisted = d.blacklisted,
+                                 !.traits = IF "traits" \in DOMAIN d
+                                            THEN SetOf(d.traits) ELSE @,
                                  !.prio = IF "oprio" \in DOMAIN line /\ a \in DOMAIN line.oprio
                                           THEN line.oprio[a] ELSE @,
                                  !.label = IF "declared" \in DOMAIN line /\ a \in DOMAIN line.declared
